@@ -101,18 +101,27 @@ TICK = 0.25
 
 
 class Inode(object):
-    __slots__ = ('ino', 'data', 'mtime', 'tag', '_h')
+    __slots__ = ('ino', 'data', 'mtime', 'ctime', 'tag', '_h')
 
-    def __init__(self, ino, data, mtime, tag=None):
+    def __init__(self, ino, data, mtime, tag=None, ctime=None):
         self.ino = ino
         self.data = bytearray(data)
         self.mtime = mtime
+        self.ctime = mtime if ctime is None else ctime
         self.tag = tag
         self._h = None
 
-    def touch(self, mtime):
+    def touch(self, mtime, ctime=None):
+        """Content or mtime change.  st_ctime (inode change time) is the moment of the change: the
+        new mtime for writes, the current clock when the mtime is set to an arbitrary value."""
         self.mtime = mtime
+        self.ctime = mtime if ctime is None else ctime
         self._h = None
+
+    def changed(self, now):
+        """Inode metadata change that leaves content and mtime alone (link count dropped by unlink or
+        by being renamed over, rename of the inode itself, chmod): bumps st_ctime only."""
+        self.ctime = now
 
     def digest(self):
         if self._h is None:
@@ -120,19 +129,36 @@ class Inode(object):
         return self._h
 
 
+class Link(object):
+    """A symbolic link: lstat() describes the link, stat()/open() what it points to."""
+    __slots__ = ('target', 'mtime')
+
+    def __init__(self, target, mtime):
+        self.target = target
+        self.mtime = mtime
+
+
 class StatResult(object):
     def __init__(self, inode, dev):
         self.st_mtime = inode.mtime
         self.st_mtime = float(inode.mtime)
         self.st_mtime_ns = int(round(inode.mtime * 10 ** 9))
-        self.st_atime = self.st_ctime = inode.mtime
-        self.st_atime_ns = self.st_ctime_ns = self.st_mtime_ns
+        self.st_atime = float(inode.mtime)
+        self.st_atime_ns = self.st_mtime_ns
+        self.st_ctime = float(inode.ctime)
+        self.st_ctime_ns = int(round(inode.ctime * 10 ** 9))
         self.st_size = len(inode.data)
         self.st_ino = inode.ino
         self.st_dev = dev
         self.st_mode = 0o100644
         self.st_nlink = 1
         self.st_uid = self.st_gid = 0
+
+
+class LinkStat(StatResult):
+    def __init__(self, link, dev):
+        StatResult.__init__(self, Inode(0, link.target.encode('utf-8'), link.mtime), dev)
+        self.st_mode = 0o120777
 
 
 class DirStat(StatResult):
@@ -150,6 +176,7 @@ class DirStat(StatResult):
 class VFS(object):
     def __init__(self, mounts=(), read_chunk=4096, aliases=None):
         self.files = {}          # path -> Inode
+        self.links = {}          # path -> Link (symbolic links; only the final path component)
         self.dirs = set(['/'])
         self.clock = 1.125       # seconds; never integer-aligned, see TICK
         self.next_ino = 1
@@ -181,6 +208,23 @@ class VFS(object):
         if a:
             return a
         return posixpath.basename(path) or path
+
+    def resolve(self, path):
+        n = 0
+        while path in self.links:
+            path = self.links[path].target
+            n += 1
+            if n > 8:
+                raise OSError(errno.ELOOP, 'Too many levels of symbolic links', path)
+        return path
+
+    def mklink(self, path, target, mtime):
+        """Setup helper (not a step)."""
+        self.links[path] = Link(target, mtime)
+        d = posixpath.dirname(path)
+        while d and d not in self.dirs:
+            self.dirs.add(d)
+            d = posixpath.dirname(d)
 
     def mkfile(self, path, data, mtime, tag=None):
         """Setup helper (not a step)."""
@@ -226,14 +270,33 @@ class VFS(object):
         if path in self.dirs:
             return DirStat()
         a = self._begin('stat ' + self.alias(path))
-        i = self.files.get(path)
+        i = self.files.get(self.resolve(path))
         if i is None:
             a.obs.append(('stat', self.alias(path), 'ENOENT'))
             self.ev(a, 'stat', path, None)
             raise self.enoent(path)
-        a.obs.append(('stat', self.alias(path), i.mtime, len(i.data)))
+        a.obs.append(('stat', self.alias(path), i.mtime, i.ctime, len(i.data)))
         self.ev(a, 'stat', path, i.ino, i.mtime)
         return StatResult(i, self.fsid(path))
+
+    def op_lstat(self, path):
+        l = self.links.get(path)
+        if l is None:
+            return self.op_stat(path)
+        a = self._begin('lstat ' + self.alias(path))
+        a.obs.append(('lstat', self.alias(path), l.mtime, l.target))
+        self.ev(a, 'lstat', path, None, (l.mtime, 'symlink', l.target))
+        return LinkStat(l, self.fsid(path))
+
+    def op_chmod(self, path):
+        a = self._begin('chmod ' + self.alias(path))
+        i = self.files.get(self.resolve(path))
+        if i is None:
+            a.obs.append(('chmod', self.alias(path), 'ENOENT'))
+            raise self.enoent(path)
+        i.changed(self.tick())
+        a.obs.append(('chmod', self.alias(path)))
+        self.ev(a, 'chmod', path, i.ino)
 
     def op_fstat(self, fd):
         h = fd if isinstance(fd, Handle) else self.fds.get(fd)
@@ -241,7 +304,7 @@ class VFS(object):
             raise OSError(errno.EBADF, 'Bad file descriptor')
         a = self._begin('fstat ' + self.alias(h.path))
         i = h.inode
-        a.obs.append(('fstat', self.alias(h.path), i.mtime, len(i.data)))
+        a.obs.append(('fstat', self.alias(h.path), i.mtime, i.ctime, len(i.data)))
         self.ev(a, 'fstat', h.path, i.ino, i.mtime)
         return StatResult(i, self.fsid(h.path))
 
@@ -256,13 +319,19 @@ class VFS(object):
 
     def op_unlink(self, path):
         a = self._begin('unlink ' + self.alias(path))
+        if path in self.links:
+            del self.links[path]
+            self.tick()
+            a.obs.append(('unlink', self.alias(path), 'ok'))
+            self.ev(a, 'unlink', path, None, 'symlink')
+            return
         i = self.files.get(path)
         if i is None:
             a.obs.append(('unlink', self.alias(path), 'ENOENT'))
             self.ev(a, 'unlink', path, None)
             raise self.enoent(path)
         del self.files[path]
-        self.tick()
+        i.changed(self.tick())              # link count dropped: st_ctime of the (maybe still open) inode
         a.obs.append(('unlink', self.alias(path), 'ok'))
         self.ev(a, 'unlink', path, i.ino)
 
@@ -272,7 +341,8 @@ class VFS(object):
         if d not in self.dirs:
             a.obs.append(('listdir', 'ENOENT'))
             raise self.enoent(d)
-        names = sorted(posixpath.basename(p) for p in self.files if posixpath.dirname(p) == d)
+        names = sorted(posixpath.basename(p) for p in list(self.files) + list(self.links)
+                       if posixpath.dirname(p) == d)
         a.obs.append(('listdir', tuple(self.alias(posixpath.join(d, n)) for n in names)))
         self.ev(a, 'listdir', d, None, tuple(names))
         return names
@@ -302,8 +372,12 @@ class VFS(object):
             raise self.enoent(src)
         old = self.files.get(dst)
         del self.files[src]
+        self.links.pop(dst, None)
         self.files[dst] = i
-        self.tick()
+        now = self.tick()
+        i.changed(now)                      # rename updates st_ctime of the renamed inode ...
+        if old is not None:
+            old.changed(now)                # ... and of the inode renamed over (its link count drops)
         a.obs.append(('rename', self.alias(src), self.alias(dst), 'ok'))
         self.ev(a, 'rename', dst, i.ino, old.ino if old else None)
 
@@ -311,20 +385,44 @@ class VFS(object):
         """Atomic installation of a new version of a file (prepared elsewhere, renamed
         into place): one step.  Returns the new inode."""
         a = self._begin('replace ' + self.alias(path))
+        path = self.resolve(path) if path not in self.links else path
+        old = self.files.get(path)
         i = self.new_inode(a, path)
         i.data[:] = data
         i.tag = tag
         i.touch(i.mtime)
+        if old is not None:
+            old.changed(i.mtime)
+        self.links.pop(path, None)
         self.files[path] = i
         a.obs.append(('replace', self.alias(path)))
         self.ev(a, 'replace', path, i.ino, tag)
+        return i
+
+    def op_repoint(self, link, target, data, tag=None):
+        """Atomically re-point a symbolic link to a file written at that moment (the new target carries
+        the current time: sources with older mtimes are outside the model): one step."""
+        a = self._begin('repoint %s -> %s' % (self.alias(link), self.alias(target)))
+        i = self.new_inode(a, target)
+        i.data[:] = data
+        i.tag = tag
+        i.touch(i.mtime)
+        d = posixpath.dirname(target)
+        while d and d not in self.dirs:
+            self.dirs.add(d)
+            d = posixpath.dirname(d)
+        self.files[target] = i
+        self.files.pop(link, None)
+        self.links[link] = Link(target, i.mtime)
+        a.obs.append(('repoint', self.alias(link), self.alias(target)))
+        self.ev(a, 'repoint', link, i.ino, tag)
         return i
 
     def op_slurp(self, path):
         """open + read to EOF + close of a file whose inodes are immutable (replaced only
         atomically): one step."""
         a = self._begin('read-file ' + self.alias(path))
-        i = self.files.get(path)
+        i = self.files.get(self.resolve(path))
         if i is None:
             a.obs.append(('read-file', self.alias(path), 'ENOENT'))
             raise self.enoent(path)
@@ -334,18 +432,18 @@ class VFS(object):
 
     def op_utime(self, path, mtime):
         a = self._begin('utime ' + self.alias(path))
-        i = self.files.get(path)
+        i = self.files.get(self.resolve(path))
         if i is None:
             a.obs.append(('utime', self.alias(path), 'ENOENT'))
             raise self.enoent(path)
-        self.tick()
-        i.touch(mtime)
+        i.touch(mtime, self.tick())
         a.obs.append(('utime', self.alias(path), mtime))
         self.ev(a, 'utime', path, i.ino, mtime)
 
     def op_open(self, path, mode, encoding=None):
         rd = 'r' in mode and '+' not in mode
         a = self._begin('open %s %s' % (self.alias(path), 'r' if rd else 'w'))
+        shown, path = path, self.resolve(path)
         if rd:
             i = self.files.get(path)
             if i is None:
@@ -463,8 +561,7 @@ class VFS(object):
             a.obs.append(('copystat', 'ENOENT'))
             self.ev(a, 'copystat', dst, None)
             raise self.enoent(dst)
-        self.tick()
-        j.touch(s.mtime)
+        j.touch(s.mtime, self.tick())
         a.obs.append(('copystat', s.mtime))
         self.ev(a, 'copystat', dst, j.ino, s.mtime)
 
@@ -608,7 +705,8 @@ class PathProxy(object):
     def abspath(self, p):
         return posixpath.normpath(p if p.startswith('/') else posixpath.join('/cwd', p))
 
-    realpath = abspath
+    def realpath(self, p):
+        return _vfs().resolve(self.abspath(p))
 
     def expanduser(self, p):
         home = _vfs().environ.get('HOME', '/home/u')
@@ -631,7 +729,7 @@ class PathProxy(object):
         return p in _vfs().dirs
 
     def islink(self, p):
-        return False
+        return p in _vfs().links
 
     def getmtime(self, p):
         return _vfs().op_stat(p).st_mtime
@@ -666,9 +764,18 @@ class OsProxy(object):
     def stat(self, path, **kw):
         if isinstance(path, int):
             return _vfs().op_fstat(path)
+        if kw.get('follow_symlinks', True) is False:
+            return _vfs().op_lstat(path)
         return _vfs().op_stat(path)
 
-    lstat = stat
+    def lstat(self, path, **kw):
+        return _vfs().op_lstat(path)
+
+    def readlink(self, path):
+        l = _vfs().links.get(path)
+        if l is None:
+            raise OSError(errno.EINVAL, 'Invalid argument', path)
+        return l.target
 
     def fstat(self, fd):
         return _vfs().op_fstat(fd)
@@ -721,7 +828,7 @@ class OsProxy(object):
         return _vfs().exists(path)
 
     def chmod(self, path, mode, **kw):
-        return None
+        return _vfs().op_chmod(path)
 
     def fsync(self, fd):
         return None
@@ -960,9 +1067,11 @@ class Exec(object):
             k = canon.get(i.ino)
             if k is None:
                 k = canon[i.ino] = len(canon)
-                inodes.append((i.digest(), i.mtime, i.tag))
+                inodes.append((i.digest(), i.mtime, i.ctime, i.tag))
             return k
         fs = tuple((p, cid(v.files[p])) for p in sorted(v.files))
+        if v.links:
+            fs += tuple(('->', p, l.target, l.mtime) for p, l in sorted(v.links.items()))
         acts = []
         for a in self.actors:
             hs = tuple(cid(h.inode) for h in a.handles if not h.closed) if a.status == 'ready' else ()
